@@ -324,6 +324,17 @@ func c08Snapshots(c *vh.Ctx) {
 		{"async-type-error", `return (async function() { _.out({a: 3}); var n = null; return n.x; })();`, nil},
 		{"async-throws-object", `return (async function() { _.out({a: 4}); throw {code: 42, to: "x"}; })();`, nil},
 	}
+	// one action that emits very many messages: all of them are reported, in order
+	for _, n := range []int{1000, 1025, 1501, 5000} {
+		var want []interface{}
+		for i := 0; i < n; i++ {
+			want = append(want, M{"i": float64(i)})
+		}
+		cases = append(cases, struct {
+			name, src string
+			want      []interface{}
+		}{fmt.Sprintf("many-emissions-%d", n), fmt.Sprintf(`for (var i = 0; i < %d; i++) { _.out({i: i}); } return _.bindings;`, n), want})
+	}
 	for _, tc := range cases {
 		for _, via := range []string{"walk", "crew"} {
 			c.Eval()
@@ -405,7 +416,7 @@ func C08(c *vh.Ctx) {
 	if c.Shard == 0 {
 		c.Count("programs", int64(len(progs)))
 	}
-	c.Rule("every ECMAScript program = prefix over {emit m1, emit m2, set} (for programs of up to 3 operations m2 also ranges over 13 message shapes: maps with an emit / to / error key, messages addressed to the host's captain and timers machines, strings, numbers, arrays, empty and nested maps, booleans) (any order, up to the bound) optionally ended by one of {throw a string, throw an object with properties, throw an Error, throw null, return scalar, return array, loop until cancelled (cancel delivered at tick 3 through the harness context), emit an unserialisable value, return null, return fresh bindings, return empty bindings}; placed as the action at position 1, 2 or 3 of a chain of three emitting actions, or as the guard between them; error routing none / ActionErrorNode / ActionErrorBranches (the handler emits and resumes the chain); observed through Spec.Walk (per-stride Emitted and DoEmitted) and through sio.Crew.ProcessMsg (Result.Emitted); oracle: emitted == concatenation of the emits of the successfully completed actions in execution order; every case also for a machine that carries permanent bindings. Plus actions that go on editing what they have emitted (a value taken from the bindings, a local object, an array, the bindings themselves): each reported message is the value at the moment of its _.out; and actions that emit and return a promise that is rejected with an object (async functions that throw) report nothing. Plus long cascades through a crew (3 to 130 walks, one or two emissions per walk, next to a machine that emits and then fails): Result.Emitted must be, batch by batch, what each walk emitted. non-trivial = program emits and then fails.")
+	c.Rule("every ECMAScript program = prefix over {emit m1, emit m2, set} (for programs of up to 3 operations m2 also ranges over 13 message shapes: maps with an emit / to / error key, messages addressed to the host's captain and timers machines, strings, numbers, arrays, empty and nested maps, booleans) (any order, up to the bound) optionally ended by one of {throw a string, throw an object with properties, throw an Error, throw null, return scalar, return array, loop until cancelled (cancel delivered at tick 3 through the harness context), emit an unserialisable value, return null, return fresh bindings, return empty bindings}; placed as the action at position 1, 2 or 3 of a chain of three emitting actions, or as the guard between them; error routing none / ActionErrorNode / ActionErrorBranches (the handler emits and resumes the chain); observed through Spec.Walk (per-stride Emitted and DoEmitted) and through sio.Crew.ProcessMsg (Result.Emitted); oracle: emitted == concatenation of the emits of the successfully completed actions in execution order; every case also for a machine that carries permanent bindings. Plus actions that go on editing what they have emitted (a value taken from the bindings, a local object, an array, the bindings themselves): each reported message is the value at the moment of its _.out; and actions that emit and return a promise that is rejected with an object (async functions that throw) report nothing; and one action emitting 1000 / 1025 / 1501 / 5000 messages reports all of them in order. Plus long cascades through a crew (3 to 130 walks, one or two emissions per walk, next to a machine that emits and then fails): Result.Emitted must be, batch by batch, what each walk emitted. non-trivial = program emits and then fails.")
 	var idx uint64
 	for _, p := range progs {
 		for pos := 0; pos <= 3; pos++ {
